@@ -318,6 +318,19 @@ impl Ctx {
         }
     }
 
+    /// For explicit-state searches: the transition is always executed (successor
+    /// states are needed to continue the search); the flag says whether to record it
+    /// (always in a normal run of an unsharded family, only the requested case in a replay).
+    pub fn take_exec(&mut self) -> (u64, bool) {
+        let id = self.next_id;
+        self.next_id += 1;
+        let rec = match self.only {
+            Some(o) => o == id,
+            None => true,
+        };
+        (id, rec)
+    }
+
     /// Written *before* a case runs, so that the supervisor can attribute an
     /// abort (OOM, stack overflow, kill) to it.
     pub fn crumb(&mut self, id: u64, descr: &str) {
@@ -339,6 +352,12 @@ impl Ctx {
     }
 
     /// Records one executed case. `descr` is only rendered when needed.
+    pub fn record_if(&mut self, rec: bool, id: u64, outcome_key: &str, verdict: Verdict, descr: impl FnOnce() -> String) {
+        if rec {
+            self.record(id, outcome_key, verdict, descr)
+        }
+    }
+
     pub fn record(&mut self, id: u64, outcome_key: &str, verdict: Verdict, descr: impl FnOnce() -> String) {
         self.cases += 1;
         self.traces += 1;
